@@ -228,6 +228,7 @@ func cmdCheck(args []string) {
 	workers := fs.Int("workers", 14, "parallel workers")
 	verbose := fs.Bool("v", false, "verbose")
 	noEvidence := fs.Bool("no-evidence", false, "do not write the evidence file")
+	allLabels2 := fs.Bool("all-labels", false, "check obligations tagged with other properties too")
 	fs.Parse(args)
 	t0 := time.Now()
 	reg := loadRegistry()
@@ -282,6 +283,10 @@ func cmdCheck(args []string) {
 		cfg.Workers = *workers
 		cfg.WorkDir = workDir
 		cfg.Seed = seed
+		cfg.Property = *prop
+		if *allLabels2 {
+			cfg.Property = ""
+		}
 		if e.Unwind > 0 {
 			cfg.Unwind = e.Unwind
 		}
